@@ -9,8 +9,10 @@ import (
 
 	"github.com/samsarahq/thunder/graphql"
 	"verif/explore"
+	"verif/fix/fedfix"
 	"verif/fix/gqlfix"
 	"verif/harness/reg"
+	"vrt/rt"
 )
 
 // node of a query template
@@ -189,11 +191,9 @@ func sigOf(t *template, assign []opt) string {
 	return fmt.Sprintf("c19/annotated!=pruned/%s/both=%t/skipT=%t/incF=%t", t.name, both, skipT, incF)
 }
 
-func run(rp *explore.Report, tier string) {
-	data := gqlfix.DataSets()[0]
-	schema := gqlfix.Build(data, gqlfix.Modes{}, nil)
-	ts := templates()
-	var k int64
+type execFn func(text string, vars map[string]interface{}) (interface{}, error)
+
+func enumerate(rp *explore.Report, tier string, prefix string, ts []template, exec execFn, k *int64) {
 	nopts := len(opts)
 	for ti := range ts {
 		t := &ts[ti]
@@ -212,13 +212,9 @@ func run(rp *explore.Report, tier string) {
 				}
 				c /= nopts
 			}
-			if false && tier != "thorough" && nd > 2 && code%7 != 0 {
-				// quick: all assignments to <=2 sites, and one in seven of the 3-site ones
-				continue
-			}
 			for _, byVar := range []bool{false, true} {
-				k++
-				if !rp.Mine(k) {
+				*k++
+				if !rp.Mine(*k) {
 					continue
 				}
 				rp.Cases++
@@ -230,29 +226,88 @@ func run(rp *explore.Report, tier string) {
 				if nd > 0 {
 					rp.Nontrivial++
 				}
-				ctx := context.Background()
-				want, werr := gqlfix.Exec(ctx, schema, gqlfix.FIFO{}, pr, nil)
-				got, gerr := gqlfix.Exec(ctx, schema, gqlfix.FIFO{}, ann, vars)
+				want, werr := exec(pr, nil)
+				got, gerr := exec(ann, vars)
 				if rp.Cases%997 == 1 {
-					rp.AddSample(map[string]interface{}{"annotated": ann, "vars": vars, "pruned": pr})
+					rp.AddSample(map[string]interface{}{"via": prefix, "annotated": ann, "vars": vars, "pruned": pr})
 				}
 				if werr != nil {
-					rp.AddViolation(&explore.Violation{Item: pr, Signature: "c19/harness/pruned-query-rejected/" + t.name, Stable: true,
+					rp.AddViolation(&explore.Violation{Item: pr, Signature: "c19/harness/pruned-query-rejected/" + prefix + t.name, Stable: true,
 						Failures: []explore.Failure{{Clause: "harness", Msg: "pruned query failed: " + werr.Error()}}})
 					continue
 				}
 				if gerr != nil || !reflect.DeepEqual(got, want) {
-					msg := fmt.Sprintf("annotated %q vars=%v gives %s (err=%v); pruned %q gives %s", ann, vars, gqlfix.JS(got), gerr, pr, gqlfix.JS(want))
-					rp.AddViolation(&explore.Violation{Item: ann, Signature: sigOf(t, assign), Stable: true,
+					msg := fmt.Sprintf("[%s] annotated %q vars=%v gives %s (err=%v); pruned %q gives %s", prefix, ann, vars, gqlfix.JS(got), gerr, pr, gqlfix.JS(want))
+					rp.AddViolation(&explore.Violation{Item: ann, Signature: prefix + sigOf(t, assign), Stable: true,
 						Failures: []explore.Failure{{Clause: "annotated==pruned", Msg: msg}}})
 				}
 			}
 		}
 	}
+}
+
+func run(rp *explore.Report, tier string) {
+	data := gqlfix.DataSets()[0]
+	schema := gqlfix.Build(data, gqlfix.Modes{}, nil)
+	var k int64
+	enumerate(rp, tier, "", templates(), func(text string, vars map[string]interface{}) (interface{}, error) {
+		return gqlfix.Exec(context.Background(), schema, gqlfix.FIFO{}, text, vars)
+	}, &k)
 	_ = graphql.SKIP
 }
 
+// the same rule through the federation gateway (fields of User/Device split over two services)
+func fedTemplates() []template {
+	return []template{
+		{"fed-fields", []*node{f("users", -1, f("id", -1), f("email", 0), f("age", 1)), f("devices", 2, f("id", -1)), f("admins", -1, f("id", -1))}, nil, 3},
+		{"fed-same-alias", []*node{f("users", 0, f("id", -1)), f("users", 1, f("email", 2)), f("admins", -1, f("id", -1))}, nil, 3},
+		{"fed-spread-twice", []*node{f("users", -1, f("id", -1), sp("F", 0)), f("user(id: 1)", -1, f("id", -1), sp("F", 1))},
+			[]fragDef{{"F", "User", []*node{f("email", 2), f("device", -1, f("temp", -1))}}}, 3},
+		{"fed-union", []*node{f("everyone", -1, f("__typename", -1), on("User", 0, f("email", 1), f("id", -1)), on("Admin", 2, f("hiding", -1)))}, nil, 3},
+		{"fed-hop", []*node{f("users", -1, f("id", -1), f("device", 0, f("id", -1), f("temp", 1), f("owner", 2, f("email", -1))))}, nil, 3},
+	}
+}
+
+func runFed(rp *explore.Report, tier string) {
+	d := fedfix.DataSets()[0]
+	a := fedfix.Assignment{"users": "s1", "user": "s1", "devices": "s2", "everyone": "s1", "admins": "s2", "nobody": "s1", "noUsers": "s1"}
+	for i, fl := range fedfix.ExtraFields {
+		a[fl] = []string{"s2", "s1"}[i%2]
+	}
+	var k int64
+	res := rt.Execute(rt.Config{MaxSteps: 50000000, MaxClock: 1000}, func() {
+		ctx, cancel := rt.WithCancel(context.Background())
+		defer cancel()
+		g, err := fedfix.NewGateway(ctx, d, a, nil)
+		if err != nil {
+			panic(err)
+		}
+		enumerate(rp, tier, "gateway/", fedTemplates(), func(text string, vars map[string]interface{}) (res interface{}, err error) {
+			defer func() {
+				if p := recover(); p != nil {
+					err = fmt.Errorf("PANIC: %v", p)
+				}
+			}()
+			q, err := graphql.Parse(text, vars)
+			if err != nil {
+				return nil, err
+			}
+			r, _, err := g.Exec.Execute(ctx, q, nil)
+			if err != nil {
+				return nil, err
+			}
+			return gqlfix.Norm(r)
+		}, &k)
+	})
+	if res.Deadlock || len(res.Panics) > 0 {
+		rp.AddViolation(&explore.Violation{Item: "gateway run", Signature: "c19/gateway/blocked-or-panicked", Stable: true,
+			Failures: []explore.Failure{{Clause: "harness", Msg: fmt.Sprintf("deadlock=%v %v panics=%v", res.Deadlock, res.Blocked, res.Panics)}}})
+	}
+}
+
 func init() {
+	reg.Register(&reg.Harness{Property: "C19", Name: "c19/gateway", Level: "exploration", Run: runFed,
+		Rule: "the same enumeration through the federation gateway: 5 templates (fields on different services, same-alias selections, a fragment spread twice, union member fragments, a two-hop plan) x 9^3 directive assignments x literal/variable, over a two-service split of the fedfix domain; oracle: gateway(annotated) == gateway(pruned)"})
 	reg.Register(&reg.Harness{Property: "C19", Name: "c19/directives", Level: "exploration", Run: run,
 		Rule: "14 query templates (fields, same-alias objects/leaves, inline fragments, one named fragment spread twice in different and in the same selection set, union member fragments incl. the same member twice, spreads under unions, nested fragments, aliases+arguments) x every assignment of {none, skip T/F, include T/F, both in all four combinations} to 3 directive sites x condition by literal or by variable; oracle: Execute(annotated) == Execute(textually pruned query); non-trivial = at least one directive present"})
 }
